@@ -1,5 +1,156 @@
-import Blots.Model.Format
+import Blots.Lemmas.FormatLemmas
+import Blots.Lemmas.PrintLemmas
+/-
+  C09 — formatting never loses or reorders comments: the parts that are logic of the model.
+
+  How the formatter keeps comments (formatter.rs): `format_expr_impl` first renders the node
+  with `format_single_line` and uses that text only if it has no line break and fits;
+  otherwise it goes to the multi-line layouts, which print the leading / trailing comments of
+  every list item, record entry and do-block statement.  `format_single_line` itself prints
+  NO comments — so the whole scheme is sound only if the single-line text of a node that
+  carries a comment anywhere inside can never be taken.  That is the *forcing mechanism*:
+  such a text always contains a line break.
+
+  PROVED here, for all trees (mutual structural induction over Expr / Item / Entry / Key):
+   * `comments_force_multiline`   : `containsComments e → hasNewline (fmtSingle e)`;
+   * `do_blocks_force_multiline`  : a do-block anywhere in the printed part of the tree has
+     the same effect (`contains_comments` does not look at the comments of do-block
+     statements; they are safe because a do-block never prints on one line);
+   * `any_comment_forces_multiline`: the two combined — if ANY `Commented` node of the printed
+     tree carries a comment, the single-line text has a line break; contrapositive
+     `single_line_path_is_comment_free`;
+   * `do_block_source_emits_each_comment_once`: the single-line printer's do-block text is
+     the concatenation of chunks whose comment chunks are exactly the comments of the
+     statements and of the `return`, each once, in source order, leading comments on their
+     own line before the statement, the trailing comment after it on the same line.
+
+  NOT proved: that the multi-line layouts (`fmtItems`, `fmtEntries`, `fmtStmts`, … — `partial`
+  functions of the model, no equations available) emit each comment once, and that the
+  parser attaches every comment of the source text to some node (it does not for
+  comment-only lists / records: known findings `c09.comment-only-list`, `-record`).  Both are
+  covered by the model-free oracle of `harness/src/props/c09.rs` (comment sequence of the
+  output = comment sequence of the input) and the correspondence harness.
+
+  A shorthand record entry `{k}` prints only its key; its (synthetic) value is not part of
+  the "printed tree" in `hasDo` / `anyComment`, exactly as in `contains_comments`.
+-/
 namespace Blots.C09
-/-- placeholder replaced later in this session -/
-theorem formatExpr_default (e : Expr) : formatExpr e none = formatExpr e (some DEFAULT_MAX_COLUMNS) := rfl
+open Blots.FormatL Blots.PrintL
+
+/-- THE FORCING MECHANISM.  An expression that `contains_comments` has no newline-free
+    single-line form, so `format_expr_impl` (`if !single.contains('\n') && fits`) never
+    returns the comment-dropping single-line text for it. -/
+theorem comments_force_multiline (e : Expr) (h : containsComments e = true) :
+    hasNewline (fmtSingle e) = true := cfm e h
+
+/-- the list-shaped versions used inside calls, lists and records: some rendered element
+    carries the line break (or, for lists / records, an element itself has comments and the
+    whole literal is replaced by `[\n]` / `{\n}`) -/
+theorem comments_force_multiline_in_sequences :
+    (∀ es : List Expr, exprsContainComments es = true →
+      ∃ s ∈ fmtSingleList es, hasNewline s = true) ∧
+    (∀ is : List Item, itemsHaveComments is = true →
+      is.any Item.hasComments = true ∨ ∃ s ∈ fmtSingleItems is, hasNewline s = true) ∧
+    (∀ es : List Entry, entriesHaveComments es = true →
+      es.any Entry.hasComments = true ∨ ∃ s ∈ fmtSingleEntries es, hasNewline s = true) := by
+  refine ⟨cfm_list, fun is h => ?_, fun es h => ?_⟩
+  · cases hany : is.any Item.hasComments
+    · exact Or.inr (cfm_items is h hany)
+    · exact Or.inl rfl
+  · cases hany : es.any Entry.hasComments
+    · exact Or.inr (cfm_entries es h hany)
+    · exact Or.inl rfl
+
+/-- the single-line printer's text of a do-block always has a line break, in any scope … -/
+theorem do_block_source_has_newline (sc : Scope) (stmts : List Item) (ret : Item) :
+    hasNewline (exprSrc sc (.doBlock stmts ret)) = true := doSrc _ (by simp only [hasDo]) sc
+
+/-- … hence so has the text of every expression with a do-block in its printed part, both
+    from the printer and from `format_single_line` -/
+theorem do_blocks_force_multiline (e : Expr) (h : hasDo e = true) :
+    (∀ sc, hasNewline (exprSrc sc e) = true) ∧ hasNewline (fmtSingle e) = true :=
+  ⟨doSrc e h, doFmt e h⟩
+
+/-- every comment of the printed tree is either counted by `contains_comments` or sits on a
+    statement of a do-block -/
+theorem every_comment_is_counted_or_in_do_block (e : Expr) (h : anyComment e = true) :
+    containsComments e = true ∨ hasDo e = true := anyC e h
+
+/-- If ANY node of the printed tree carries a comment, the single-line form has a line break. -/
+theorem any_comment_forces_multiline (e : Expr) (h : anyComment e = true) :
+    hasNewline (fmtSingle e) = true := anyComment_forces_multiline e h
+
+/-- contrapositive: when `format_expr_impl` does take the single-line text, there was no
+    comment to lose -/
+theorem single_line_path_is_comment_free (e : Expr) (h : hasNewline (fmtSingle e) = false) :
+    anyComment e = false := by
+  cases ha : anyComment e
+  · rfl
+  · rw [anyComment_forces_multiline e ha] at h; cases h
+
+/-- The printer's do-block text (`expr_to_source` — also what the formatter falls back to for
+    nodes it has no layout for) is the concatenation of `doChunks`; the comment chunks among
+    them are exactly `doComments stmts ret` = for each statement its leading comments then its
+    trailing comment, then the leading comments of the `return` — each once, in order. -/
+theorem do_block_source_emits_each_comment_once (sc : Scope) (stmts : List Item) (ret : Item) :
+    exprSrc sc (.doBlock stmts ret) = joinChunks (doChunks sc stmts ret) ∧
+    (doChunks sc stmts ret).filterMap Chunk.comment? = doComments stmts ret ∧
+    doComments stmts ret =
+      stmts.flatMap (fun i => i.leading ++ i.trailing.toList) ++ ret.leading := by
+  refine ⟨doBlock_chunks sc stmts ret, doChunks_comments sc stmts ret, ?_⟩
+  have : stmtComments = fun i => i.leading ++ i.trailing.toList := by funext i; cases i; rfl
+  simp only [doComments, this]
+
+/-- the chunks of one statement: leading comments each on their own line, the statement on
+    its line, the trailing comment two spaces after it on the same line -/
+theorem do_statement_chunks (sc : Scope) (lead : List String) (e : Expr) (tr : Option String) :
+    stmtChunks sc (.mk lead e tr) =
+      leadChunks lead ++ [.code ("\n  " ++ protectStatementStart (exprSrc sc e))] ++
+        trailChunks tr ∧
+    (∀ c cs, leadChunks (c :: cs) = .code "\n  " :: .comment c :: leadChunks cs) ∧
+    (∀ t, trailChunks (some t) = [.code "  ", .comment t]) ∧ trailChunks none = [] :=
+  ⟨rfl, fun _ _ => rfl, fun _ => rfl, rfl⟩
+
+/-! #### examples: the statement is true of the model on the shapes that matter, and the
+    hypotheses are satisfiable -/
+
+section examples
+/-- a list whose only item has a leading comment -/
+private abbrev cl : Expr := .list [.mk ["// c"] (.ident "v") none]
+private abbrev f : Expr := .ident "f"
+
+example : containsComments cl = true := by decide
+example : fmtSingle cl = "[\n]" := by decide
+/-- inside a call argument -/
+example : containsComments (.call f [.ident "a", cl]) = true := by decide
+example : fmtSingle (.call f [.ident "a", cl]) = "f(a, [\n])" := by decide
+/-- inside a lambda body -/
+example : containsComments (.lambda [.req "x"] cl) = true := by decide
+example : fmtSingle (.lambda [.req "x"] cl) = "x => [\n]" := by decide
+/-- inside a record value under a dynamic key, and inside the dynamic key itself -/
+example : containsComments (.record [.mk [] (.dyn (.ident "k")) cl none]) = true := by decide
+example : fmtSingle (.record [.mk [] (.dyn (.ident "k")) cl none]) = "{[k]: [\n]}" := by decide
+example : fmtSingle (.record [.mk [] (.dyn cl) (.ident "k") none]) = "{[[\n]]: k}" := by decide
+/-- inside an operand -/
+example : fmtSingle (.bin .add (.ident "a") cl) = "\n" := by decide
+/-- inside a do-block statement -/
+example : containsComments (.doBlock [.mk [] cl none] (.mk [] (.ident "x") none)) = true := by
+  decide
+
+/-- a do-block whose statement has its own comments: NOT counted by `contains_comments`,
+    but a do-block — in a list it still forces the multi-line path -/
+private abbrev db : Expr :=
+  .doBlock [.mk ["// a"] (.assign "y" (.ident "z")) (some "// b")] (.mk ["// r"] (.ident "y") none)
+example : containsComments (.list [.mk [] db none]) = false := by decide
+example : anyComment (.list [.mk [] db none]) = true ∧ hasDo (.list [.mk [] db none]) = true := by
+  decide
+example : exprSrc [] db = "do {\n  // a\n  y = z  // b\n  // r\n  return y\n}" := by decide
+example : doComments [.mk ["// a"] (.assign "y" (.ident "z")) (some "// b")]
+    (.mk ["// r"] (.ident "y") none) = ["// a", "// b", "// r"] := by decide
+
+/-- a comment-free tree on the single-line path -/
+example : hasNewline (fmtSingle (.call f [.ident "a", .list [.mk [] (.ident "v") none]])) = false := by
+  decide
+end examples
+
 end Blots.C09
